@@ -100,7 +100,7 @@ def c13(tier):
                 "without propagate()), then one or two calls of new_eq/new_conj/new_disj/new_at_most_one/new_exct_one over ALL "
                 "argument lists of length <= L on the 2n literals (duplicates, complements, decided literals), the second call "
                 "on every short list and every permutation/sub-list/extension/sign-flip of the first, optionally a unit clause "
-                "in between; plus all orderings and signs of 4..6 distinct variables and, for 5..8 (thorough: 10) distinct variables in ascending and descending order, every sign pattern (product encoding with incomplete grids). After every step every "
+                "in between; plus all orderings and signs of 4..6 distinct variables and, for 5..8 (thorough: 9) distinct variables in ascending and descending order, every sign pattern (product encoding with incomplete grids). After every step every "
                 "construct built so far is judged by truth table: eq/conj/disj literal <=> formula in every model; amo/exo "
                 "literal true => cardinality constraint, and every assignment of the user variables satisfying it extends to a "
                 "model with the literal true; every call is conservative. distinct_nontrivial = distinct (returned literals, "
